@@ -504,3 +504,45 @@ def c18(tier, seed):
     v.exhaustive = True
     v.samples = [scs[0], conv[7]]
     return v.finish()
+
+
+# ---------------------------------------------------------------------------------------------
+# path-level families
+# ---------------------------------------------------------------------------------------------
+def simple_validate(pid, v, scs, name, module, sigfn=None, timeout=3000):
+    tp = execute(pid, name, scs)
+    t = validate(pid, module, tp, timeout=timeout)
+    v.add_tlc(t)
+    v.evaluations += len(scs)
+    v.traces += len(scs)
+    for tup in t.tuples("NT"):
+        v.nontrivial.add((name, tup[1]))
+    for tup in t.tuples("BAD"):
+        sc = scs[tup[1] - 1]
+        v.violation(sc, {"detail": tup[3:], "sig": sigfn(sc, tup) if sigfn else {"fam": sc.get("fam")}})
+    return t, tp
+
+
+@prop("C17")
+def c17(tier, seed):
+    v = Verdicts("C17", tier, seed)
+    th = tier == "thorough"
+    v.rule = ("Gen_Fill(FAM=contains): every triangle (and, thorough, every quadrilateral) on the 0..3 grid as path ops, with variants "
+              "(open/closed, a LineTo after Close, first op LineTo, both rules), two-loop paths by simulation; each path is queried at every "
+              "half-integer point of its bounding box grown by one unit, so points level with vertices, collinear beyond edge ends and on "
+              "horizontal edges all occur; non-trivial = some but not all query points contained")
+    v.trusted = ["harness query grid and path construction (harness/src/pathfam.rs)"]
+    g, scs = gen_scenarios("C17", "Gen_Fill", env={"FAM": "contains", "N": 3, "NV": 3, "NL": 1, "NVAR": 3 if th else 2}, timeout=1200)
+    v.add_tlc(g)
+    if th:
+        g, s2 = gen_scenarios("C17", "Gen_Fill", env={"FAM": "contains", "N": 3, "NV": 4, "MINV": 4, "NL": 1, "NVAR": 1}, timeout=1200)
+        v.add_tlc(g)
+        scs += s2
+    g, s3 = gen_scenarios("C17", "Gen_Fill", env={"FAM": "contains", "N": 4, "NV": 5, "NL": 2, "NVAR": 1},
+                          simulate=4000 if th else 800, depth=14, seed=seed, workers=1)
+    v.add_tlc(g)
+    scs += s3
+    v.exhaustive = True
+    simple_validate("C17", v, scs, "all", "Trace_Contains")
+    v.samples = [scs[0], scs[-1]]
+    return v.finish()
